@@ -31,8 +31,9 @@ MUTANTS = [
     ("c14-subset-reversed", "C14", "dependencies.py", "if set(self.dependent_parameters.values()).issubset(self._fitted_conditioners):", "if self._fitted_conditioners.issubset(self.dependent_parameters.values()):", "the original defect: premature fit with two conditioners"),
     ("c14-warm-start", "C14", "dependencies.py", 'p0 = tuple(getattr(self, "_start_parameters", self.parameters).values())', "p0 = tuple(self.parameters.values())", "the original defect: fits start from the previous result"),
     ("c14-swap-bounds", "C14", "_fitting.py", "    return [lower_bounds, upper_bounds]", "    return [[-np.inf if u == np.inf else -abs(u) for u in upper_bounds], upper_bounds]", "lower bounds lost"),
-    ("c14-return-p0", "C14", "_fitting.py", "            popt, _ = curve_fit(\n                func, x, y, p0, bounds=bounds, method=\"trf\", gtol=None\n            )", "            popt = np.asarray(p0, dtype=float)", "bounded fit returns the start values"),
-    ("c14-gtol-default", "C14", "_fitting.py", "                func, x, y, p0, sigma=weights, bounds=bounds, method=\"trf\", gtol=None", "                func, x, y, p0, sigma=weights, bounds=bounds, method=\"trf\"", "the original defect: scipy's absolute gradient tolerance stops bounded weighted fits early"),
+    ("c14-return-p0", "C14", "_fitting.py", "            popt, _ = curve_fit(\n                func, x, y, p0, bounds=bounds, method=\"trf\", gtol=None, x_scale=\"jac\"\n            )", "            popt = np.asarray(p0, dtype=float)", "bounded fit returns the start values"),
+    ("c14-gtol-default", "C14", "_fitting.py", "                gtol=None,\n", "", "the original defect: scipy's absolute gradient tolerance stops bounded weighted fits early"),
+    ("c14-unit-x-scale", "C14", "_fitting.py", "                x_scale=\"jac\",\n", "", "the original defect: unit scaling of the variables lets bounded weighted fits stop short when the parameters differ by orders of magnitude"),
     ("c14-constraints-dropped", "C14", "_fitting.py", "        constraints=constraints,\n        bounds=bounds,", "        bounds=bounds,", "the original defect: constraints not passed"),
     ("c14-weights-inverted", "C14", "_fitting.py", "            popt, _ = curve_fit(func, x, y, p0, sigma=weights)", "            popt, _ = curve_fit(func, x, y, p0, sigma=1 / np.sqrt(np.abs(np.asarray(weights, dtype=float)) + 1e-3) ** 3)", "weights applied with a wrong power"),
     ("c14-fit-order-sorted", "C14", "distributions.py", "        for par_name, dep_func in self.conditional_parameters.items():\n            x = self.conditioning_values", "        for par_name, dep_func in self.conditional_parameters.items():\n            x = self.conditioning_values[::-1]", "dependence functions fitted to reversed conditioning values"),
